@@ -110,6 +110,7 @@ func (c C20) Run(t *tape.Tape, opt core.RunOpt) (res core.Result) {
 	}
 	w.ResolverEvents = t.Bool(1, 2)
 	w.BadEvents = t.Bool(1, 3)
+	w.ListEvents = t.Bool(1, 5)
 	family := t.Draw(5)
 	nextSid, nextEv := 1, 1
 	newSub := func(topic string) *workload.SimSub {
@@ -416,7 +417,7 @@ func c20Analyse(res *core.Result, w *workload.SubWorld, s *sched.Sched, pre []in
 			for _, sd := range cl.Sends {
 				seen[sd.Sid]++
 				sb := w.Subs[sd.Sid]
-				want, rerr := workload.ExpectFor(sb.SelIndex, cl.Op.N, w.BadEvents && workload.BadEvent(cl.Op.N))
+				want, rerr := w.Expect(sb, cl.Op.N)
 				if rerr {
 					resolveErrs++
 				}
